@@ -50,6 +50,7 @@ func runC13(c *core.Ctx) {
 	}
 	T := ts[0]
 	subConstructorStoresParams(c, "C13.R0")
+	listingIteratorsRerunnable(c, "C13.R6", []string{"ocifilter"}, 1)
 	c.Note("wrapper type: %s", T)
 	// helper roles by signature
 	var nameMap, ctxMap *ssa.Function
